@@ -31,25 +31,30 @@ def addNode (s : State τ) (n : Nat) : Except PyErr (State τ) :=
   if s.node2pending.contains n then .error .assertion
   else .ok { s with node2pending := s.node2pending.set n [] }
 
+/-- a late node that takes over nothing: it is marked started and shut down (each.py, end of `add_node_collection`) -/
+def nothingToTakeOver (s : State τ) (e : Env) (n : Nat) : State τ × Env :=
+  ({ s with started := s.started ++ [n] }, e.shutdown n)
+
 /-- the loop over `_removed2pending` in `add_node_collection` -/
-def takeOver (spec : Nat → Nat) (s : State τ) (n : Nat) (c : List τ) :
-    AList Nat (List Nat) → Except PyErr (State τ)
-  | [] => .ok s
+def takeOver (spec : Nat → Nat) (s : State τ) (e : Env) (n : Nat) (c : List τ) :
+    AList Nat (List Nat) → Except PyErr (State τ × Env)
+  | [] => .ok (nothingToTakeOver s e n)
   | (dead, pend) :: rest =>
     if spec dead = spec n then do
       let deadCol ← s.node2collection.get dead
-      if c ≠ deadCol then .ok s
-      else .ok { s with removed2pending := s.removed2pending.erase dead,
-                        node2pending := s.node2pending.set n pend }
-    else takeOver spec s n c rest
+      if c ≠ deadCol then .ok (nothingToTakeOver s e n)     -- logged; `break`
+      else .ok ({ s with removed2pending := s.removed2pending.erase dead,
+                         node2pending := s.node2pending.set n pend,
+                         node2collection := s.node2collection.set n deadCol }, e)
+    else takeOver spec s e n c rest
 
-def addNodeCollection (spec : Nat → Nat) (s : State τ) (n : Nat) (c : List τ) : Except PyErr (State τ) :=
+def addNodeCollection (spec : Nat → Nat) (s : State τ) (e : Env) (n : Nat) (c : List τ) : Except PyErr (State τ × Env) :=
   if !s.node2pending.contains n then .error .assertion
   else if !s.completed then
     let n2c := s.node2collection.set n c
-    .ok { s with node2collection := n2c, node2pending := s.node2pending.set n [],
-                 completed := decide (n2c.length ≥ s.numnodes) }
-  else takeOver spec s n c s.removed2pending
+    .ok ({ s with node2collection := n2c, node2pending := s.node2pending.set n [],
+                  completed := decide (n2c.length ≥ s.numnodes) }, e)
+  else takeOver spec s e n c s.removed2pending
 
 def markComplete (s : State τ) (n i : Nat) : Except PyErr (State τ) := do
   let book ← s.node2pending.get n
@@ -71,6 +76,7 @@ def scheduleLoop (s : State τ) (e : Env) : List Nat → Except PyErr (State τ 
   | [] => .ok (s, e)
   | n :: t =>
     if s.started.contains n then scheduleLoop s e t
+    else if !s.node2collection.contains n then scheduleLoop s e t     -- a late node that is still collecting
     else do
       let book ← s.node2pending.get n
       let (s1, e1) ←
@@ -88,7 +94,7 @@ def schedule (s : State τ) (e : Env) : Except PyErr (State τ × Env) :=
 
 def step (spec : Nat → Nat) (s : State τ) (e : Env) : SOp τ → Except PyErr (State τ × Env × Option τ)
   | .addNode n => (addNode s n).map (fun s' => (s', e, none))
-  | .addNodeCollection n c => (addNodeCollection spec s n c).map (fun s' => (s', e, none))
+  | .addNodeCollection n c => (addNodeCollection spec s e n c).map (fun r => (r.1, r.2, none))
   | .schedule => (schedule s e).map (fun r => (r.1, r.2, none))
   | .markComplete n i _ => (markComplete s n i).map (fun s' => (s', e, none))
   | .markPending _ => .error .notImplemented
